@@ -412,6 +412,12 @@ def _check_state(sc, b, typ, link, fs2, model, victim, history, i, torn, n, jour
             for n_follow, kf in enumerate(targets):
                 fresh = {'tok': 999990 + n_follow, 'size': 100 + 2000 * n_follow} if typ != 'progress' else \
                     {'tok': 999990 + n_follow, 'size': 10}
+                if link and n_follow == 0 and cont % 3 != 1:
+                    # a linked single-colour tile of ANOTHER colour than the one the interrupted store was writing (left-overs
+                    # of that store must not decide what this address shows)
+                    vp_ = sc['victim'][1][0][1]
+                    used = vp_.get('color') if isinstance(vp_, dict) else None
+                    fresh = {'color': [c_ for c_ in ([0, 255, 0], [255, 0, 255]) if c_ != used][0]}
                 try:
                     Store(b).store([[kf, fresh]])
                     got = Store(b).load(kf)
